@@ -1,4 +1,5 @@
 import RbModel.Gpos
+import RbModel.GposMark
 import RbModel.Kern
 import RbModel.Drv.Util
 
@@ -119,6 +120,114 @@ def applyModel (d : Dir) (idx : Nat) (m : List String) (p : Array Pos) : Option 
       | _ => none
   | _ => none
 
+
+/-! ### `gp pos`: the attachment lookups of a whole GPOS table on an injected buffer (model: GposMark.lean) -/
+section pos
+open RbModel.GposMark
+
+/-- tiny parser over a list of integers -/
+abbrev P (α : Type) := List Int → Option (α × List Int)
+
+def pInt : P Int
+  | n :: rest => some (n, rest)
+  | [] => none
+
+def pNat : P Nat := fun ts => do
+  let (n, ts) ← pInt ts
+  if n < 0 then none else pure (n.toNat, ts)
+
+def pMany {α} (p : P α) : Nat → P (List α)
+  | 0, ts => some ([], ts)
+  | k + 1, ts => do
+      let (x, ts) ← p ts
+      let (xs, ts) ← pMany p k ts
+      pure (x :: xs, ts)
+
+def pCounted {α} (p : P α) : P (List α) := fun ts => do
+  let (n, ts) ← pNat ts
+  pMany p n ts
+
+def pAnchor : P Anchor := fun ts => do
+  let (k, ts) ← pNat ts
+  if k == 0 then pure (none, ts) else do
+    let (x, ts) ← pInt ts
+    let (y, ts) ← pInt ts
+    pure (some (x, y), ts)
+
+def pMark : P (Nat × Int × Int) := fun ts => do
+  let (c, ts) ← pNat ts
+  let (x, ts) ← pInt ts
+  let (y, ts) ← pInt ts
+  pure ((c, x, y), ts)
+
+def pSub (typ : Nat) : P Sub := fun ts => do
+  if typ == 3 then
+    let (cov, ts) ← pCounted pNat ts
+    let (ee, ts) ← pMany (fun ts => do
+        let (a, ts) ← pAnchor ts
+        let (b, ts) ← pAnchor ts
+        pure ((a, b), ts)) cov.length ts
+    pure (.cursive cov ee, ts)
+  else
+    let (mk, ts) ← pCounted pNat ts
+    let (marks, ts) ← pMany pMark mk.length ts
+    let (tg, ts) ← pCounted pNat ts
+    let (k, ts) ← pNat ts
+    if typ == 5 then
+      let (ligs, ts) ← pMany (fun ts => do
+          let (rows, ts) ← pNat ts
+          let (flat, ts) ← pMany pAnchor (rows * k) ts
+          pure (({ rows := rows, cols := k, flat := flat } : Matrix), ts)) tg.length ts
+      pure (.markLig mk tg marks ligs, ts)
+    else
+      let (flat, ts) ← pMany pAnchor (tg.length * k) ts
+      let m : Matrix := { rows := tg.length, cols := k, flat := flat }
+      if typ == 4 then pure (.markBase mk tg marks m, ts)
+      else if typ == 6 then pure (.markMark mk tg marks m, ts)
+      else none
+
+def pLookup : P GposMark.Lookup := fun ts => do
+  let (typ, ts) ← pNat ts
+  let (props, ts) ← pNat ts
+  let (subs, ts) ← pCounted (pSub typ) ts
+  pure ({ props := props, subtables := subs }, ts)
+
+def pFont : P (Gsub.Font × List GposMark.Lookup) := fun ts => do
+  let (hg, ts) ← pNat ts
+  let (sets, ts) ← pCounted (pCounted pNat) ts
+  let (lks, ts) ← pCounted pLookup ts
+  pure (({ hasGdef := hg != 0, markSets := sets }, lks), ts)
+
+def pMap : P LookupMap := fun ts => do
+  let (i, ts) ← pNat ts; let (m, ts) ← pNat ts; let (zn, ts) ← pNat ts; let (zj, ts) ← pNat ts; let (ps, ts) ← pNat ts
+  pure ({ index := i, mask := m, autoZwnj := zn != 0, autoZwj := zj != 0, perSyllable := ps != 0 }, ts)
+
+def parseGInfo (t : String) : Option Info :=
+  match nats (splitOn1 t ':') with
+  | some [g, m, gp, lp, up] => some { gid := g, mask := m, var1 := gp % 65536 + (lp % 256) * 65536, var2 := up % 65536 }
+  | _ => none
+
+def splitAtTok (ts : List String) (k : String) : Option (List String × List String) :=
+  let i := ts.idxOf k
+  if i < ts.length then some (ts.take i, ts.drop (i + 1)) else none
+
+/-- gp pos <fontid> <dir> <finish> <infos> FONT <ints…> MAPS <ints…> | <pos…> -/
+def handlePos (d finish infos : String) (rest : List String) : Option String := do
+  let d ← parseDir d
+  let infos ← (splitOn1 infos ',').mapM parseGInfo
+  let (_, rest) ← splitAtTok rest "FONT"
+  let (fontToks, rest) ← splitAtTok rest "MAPS"
+  let (mapToks, ps) := splitBar rest
+  let (fl, _) ← pFont (← ints fontToks)
+  let (maps, _) ← pCounted pMap (← ints mapToks)
+  let p ← parsePoss ps
+  let c : GposMark.Ctx := { font := fl.1, info := infos, len := infos.length, pos := p, dir := d }
+  match positionBuffer fl.2 maps c (finish = "1") with
+  | .ok (q, has) => pure s!"ok {b01 has} {fmtPoss q}"
+  | .error e => pure (errStr e)
+
+end pos
+
 def cmds : List String := ["gp", "kern"]
 
 def handle (ts : List String) : Option String :=
@@ -148,6 +257,7 @@ def handle (ts : List String) : Option String :=
       match positionStart p len with
       | .ok q => pure s!"ok {fmtPoss q}"
       | .error e => pure (errStr e)
+  | "gp" :: "pos" :: _fid :: d :: finish :: infos :: rest => handlePos d finish infos rest
   | "gp" :: "sub" :: _kind :: _hex :: _props :: d :: idx :: _infos :: rest => do
       let d ← parseDir d; let idx ← idx.toNat?
       let (m, ps) := splitBar rest
